@@ -276,6 +276,8 @@ fn smoke(sim: &mut Sim, d: &Delivery, r: &[NetflowPacket]) {
                     let _ = x.to_be_bytes();
                 }
                 NetflowPacket::Error(_) => {}
+                #[allow(unreachable_patterns)]
+                _ => {}
             }
             1u8
         }));
@@ -540,6 +542,16 @@ pub fn compare_decode(
             }
             if sets_model[k].tainted {
                 sim.stats.probe("skipped_tainted_set");
+                if next_matches {
+                    gi += 1;
+                }
+                continue;
+            }
+            if !UNKNOWN_FIELDS_ON && e.correct.is_none() && e.defective.is_empty() {
+                // built without parse_unknown_fields, the governing template holds a field the
+                // library does not know: IPFIX omits the set, V9 reports it without records;
+                // what must not happen is judged by C17's rule (b)
+                sim.stats.probe("set_without_expectation");
                 if next_matches {
                     gi += 1;
                 }
@@ -1109,6 +1121,8 @@ fn err_kind(e: &NetflowParseError) -> u8 {
         NetflowParseError::Partial(_) => 1,
         NetflowParseError::UnallowedVersion(_) => 2,
         NetflowParseError::UnknownVersion(_) => 3,
+        #[allow(unreachable_patterns)]
+        _ => 9,
     }
 }
 
@@ -1488,6 +1502,8 @@ fn c17(sim: &mut Sim, d: &Delivery) -> u64 {
             NetflowPacket::V5(x) => Some(Ok(x.to_be_bytes())),
             NetflowPacket::V7(x) => Some(Ok(x.to_be_bytes())),
             NetflowPacket::Error(_) => None,
+            #[allow(unreachable_patterns)]
+            _ => None,
         }))
         .unwrap_or(Some(Err("panic".into())));
         match exported {
@@ -1530,6 +1546,21 @@ fn c17(sim: &mut Sim, d: &Delivery) -> u64 {
     if !w.conformant() {
         // garbage may hold unknown field numbers the model did not see
         sim.stats.probe("unknown_field_in_template");
+    }
+    // (c) feature off: whatever holds only known fields decodes as the bytes and the governing
+    // template say, also on a parser that met unknown fields before (the cross-build
+    // comparison (a) covers only runs without any unknown field)
+    if !UNKNOWN_FIELDS_ON {
+        for version in [9u16, 10] {
+            let before = sim.findings.len();
+            let rep = compare_decode(sim, "TMP", version, d, &w, &r);
+            sim.stats.probe_n("feature_off_sets_checked_against_model", rep.sets_checked);
+            let new: Vec<Finding> = sim.findings.drain(before..).collect();
+            if let Some(f) = new.into_iter().find(|f| !f.code.starts_with("KF-")) {
+                sim.find("C17-feature-off-known-fields-not-decoded", d.ev, format!("built without parse_unknown_fields: {}", f.message));
+                break;
+            }
+        }
     }
     // (b) feature off: a record containing a field the library does not know is not reported
     if !UNKNOWN_FIELDS_ON && w.conformant() && decomposes(sim, d, &r) {
@@ -1599,7 +1630,8 @@ pub fn deliver(sim: &mut Sim, prop: &str, d: &Delivery) -> u64 {
 }
 
 pub fn finish(sim: &mut Sim, prop: &str, trace: &Trace) {
-    if prop == "C06" && sim.findings.iter().all(|f| f.code.starts_with("KF-")) {
+    // (the replica is fed under the final `allowed_versions`: not comparable after a run-time change)
+    if prop == "C06" && sim.findings.iter().all(|f| f.code.starts_with("KF-")) && !sim.stats.probes.contains_key("allowed_versions_changed_at_run_time") {
         let last = trace.events.len().saturating_sub(1);
         // (6) replica-from-scratch: the public caches are the whole state
         for p in 0..sim.parsers.len() {
